@@ -43,10 +43,10 @@ theorem strict_noErr_of_narrowA {a b : List (Option TrailEl × Outcome Val)} {vs
 theorem strict_allOk_of_narrowV {a b : List (Option TrailEl × Outcome Val)} {vs : List Val}
     (h : ItemsRel NarrowV a b) (hok : AllOk vs a) : AllOk vs b := by
   induction h generalizing vs with
-  | nil => cases hok; exact All₂.nil
+  | nil => cases hok; exact Pointwise₂.nil
   | @cons x y as bs hxy _ ih =>
     cases hok with
-    | @cons v _ vs' _ hx hrest => exact All₂.cons (hxy.2 v hx) (ih hrest)
+    | @cons v _ vs' _ hx hrest => exact Pointwise₂.cons (hxy.2 v hx) (ih hrest)
 
 theorem strict_bindO_ok {α β : Type} {o : Outcome α} {k : α → Outcome β} {v : β}
     (h : bindO o k = .ok v) : ∃ a, o = .ok a ∧ k a = .ok v := by
